@@ -662,9 +662,12 @@ class _Env(object):
             ss.gsocket = self._orig_gsocket      # only open() instantiates it
         if not hold_ping:
             assert ar.ready() and ar.exception is None, 'transport did not open: %r' % (ar.exception,)
-        gp = {SinkProperties.ServiceInterface: None, SinkProperties.Label: 'svc'}
+        # the serializer sink is built the way the builder builds it, with the service interface: the Thrift serializer
+        # it makes for itself is the one used for calls with a Thrift payload (`ctor_thrift`, None if it made none)
+        from test.scales.thrift.gen_py.hello import Hello
+        gp = {SinkProperties.ServiceInterface: Hello.Iface, SinkProperties.Label: 'svc'}
         self.ser_sink = tmsink.ThriftMuxMessageSerializerSink(_Provider(self.transport), None, gp)
-        self.ser_sink._serializer._thrift_serializer = _StubThrift()
+        self.ctor_thrift = getattr(self.ser_sink._serializer, '_thrift_serializer', None)
 
         class SP(object):
             client_id = 'client'
@@ -779,7 +782,10 @@ def issue_call(env, op, m, cap, tags, parked, payload_of, drain=True, event=None
     payload, targ = payload_of(m['payload'])
     ts = env.ser_sink._serializer
     if targ is not None:
-        ts._thrift_serializer = env.real_thrift()
+        if env.ctor_thrift is not None:
+            ts._thrift_serializer = env.ctor_thrift
+        elif hasattr(ts, '_thrift_serializer'):
+            del ts._thrift_serializer          # the constructor made none: the call meets what the constructor left
         msg = MethodCallMessage(None, 'hi', (targ,), {})
     else:
         ts._thrift_serializer = _StubThrift()
@@ -824,11 +830,15 @@ def issue_call(env, op, m, cap, tags, parked, payload_of, drain=True, event=None
     return msg, assigns, payload, err
 
 
-def call_hdrs(env):
+def call_hdrs(env, m=None):
     hdrs = []
     if env.deadlines:
         d = env.deadlines[-1]
         hdrs.append([cps(DEADLINE_KEY), ['d', int(d._ts), int(d._timeout)]])
+    elif m is not None and m.get('deadline_s'):
+        # the call carried a deadline but the serializer sink made no Deadline object for it: the context entry was
+        # supplied all the same (the values are unknown: zeros), the frame will be judged against it
+        hdrs.append([cps(DEADLINE_KEY), ['d', 0, 0]])
     return hdrs
 
 
@@ -959,7 +969,7 @@ def run_script(script):
                 for c in op['calls']:
                     cap = _Capture()
                     msg, assigns, payload, err = issue_call(env, c, c['m'], cap, tags, True, payload_of)
-                    parked.append((c, msg, assigns, payload, call_hdrs(env), cap, err))
+                    parked.append((c, msg, assigns, payload, call_hdrs(env, c['m']), cap, err))
                 env.sock.release_ping()
                 rt.drain()
                 frames = {}
@@ -1033,7 +1043,7 @@ def run_script(script):
                     msg, assigns, payload, err = issue_call(env, op, m, cap, tags, False, payload_of)
                     if err is not None:
                         obs = ['err', err]
-                    hdrs = call_hdrs(env)
+                    hdrs = call_hdrs(env, m)
                     note_entries(tags, assigns)
                     note_entries(tags, hdrs)
                     tag = msg.properties.get('__Tag', op.get('tag', 2))
@@ -1094,7 +1104,7 @@ def run_script(script):
                             evt = Observable() if first is None else None
                             msg, assigns, payload, err = issue_call(senv, {'tag': it.get('tag', 2)}, it, cap, tags,
                                                                     False, payload_of, drain=False, event=evt)
-                            hdrs = call_hdrs(senv)
+                            hdrs = call_hdrs(senv, it)
                             note_entries(tags, assigns)
                             note_entries(tags, hdrs)
                             tag = msg.properties.get('__Tag', it.get('tag', 2))
